@@ -65,9 +65,11 @@ NoMem == [n \in MemNames |-> Nil]
 NoOvd == [n \in MemNames |-> <<>>]
 Blank == [k |-> "absent", rt |-> TRUE, doc |-> "none", ann |-> "none", par |-> NoPar, ret |-> "none",
           ovl |-> <<>>, mem |-> NoMem, ord |-> <<>>, ovd |-> NoOvd, tp |-> "", tgt |-> "nil"]
-Fn(doc, a, ret, ovl, third) ==
+Fn(doc, a, ret, ovl, shape) ==      \* shape: parameters (p, q) / (p, r) / none at all
   [Blank EXCEPT !.k = "function", !.doc = doc, !.ret = ret, !.ovl = ovl,
-                !.par = IF third THEN [p |-> a, q |-> "absent", r |-> a] ELSE [p |-> a, q |-> a, r |-> "absent"]]
+                !.par = CASE shape = "pq" -> [p |-> a, q |-> a, r |-> "absent"]
+                          [] shape = "pr" -> [p |-> a, q |-> "absent", r |-> a]
+                          [] OTHER -> NoPar]
 At(doc, a) == [Blank EXCEPT !.k = "attribute", !.doc = doc, !.ann = a]
 Al(tp) == [Blank EXCEPT !.k = "alias", !.tp = tp]
 Tag(bit, t) == IF bit THEN t ELSE "none"
@@ -75,7 +77,7 @@ OV == <<"O1", "O2">>     \* the two @overload signatures of a stub function
 QV == <<"Q1", "Q2">>     \* the two @overload signatures of a runtime function
 
 \* ---- cells -----------------------------------------------------------------------------------
-RDef == [rk |-> "abs", rdoc |-> TRUE, rann |-> TRUE, rov |-> FALSE, irk |-> "abs", ibare |-> FALSE]
+RDef == [rk |-> "abs", rdoc |-> TRUE, rann |-> TRUE, rpar |-> "two", rov |-> FALSE, irk |-> "abs", ibare |-> FALSE]
 SDef == [sk |-> "abs", sdoc |-> TRUE, sann |-> TRUE, sret |-> TRUE, spar |-> "same", sov |-> FALSE, isk |-> "abs"]
 IRK == {"abs", "fun", "att", "cls", "al_ext", "al_fun"}
 ISK == {"abs", "fun", "att", "cls", "al", "ovo"}
@@ -83,14 +85,15 @@ RSide ==
   {RDef}
   \cup {[RDef EXCEPT !.rk = "cls", !.rdoc = d, !.irk = i, !.ibare = x] :
            d \in B, i \in IRK, x \in B}
-  \cup {[RDef EXCEPT !.rk = "fun", !.rdoc = d, !.rann = a, !.rov = o] : d \in B, a \in B, o \in B}
+  \cup {[RDef EXCEPT !.rk = "fun", !.rdoc = d, !.rann = a, !.rov = o, !.rpar = n] :
+           d \in B, a \in B, o \in B, n \in {"two", "none"}}
   \cup {[RDef EXCEPT !.rk = "att", !.rdoc = d, !.rann = a] : d \in B, a \in B}
   \cup {[RDef EXCEPT !.rk = k] : k \in {"al_ext", "al_fun", "al_cls", "al_att"}}
 SSide ==
   {SDef}
   \cup {[SDef EXCEPT !.sk = "cls", !.sdoc = d, !.isk = i] : d \in B, i \in ISK}
   \cup {[SDef EXCEPT !.sk = "fun", !.sdoc = d, !.sann = a, !.sret = r, !.spar = p, !.sov = o] :
-           d \in B, a \in B, r \in B, p \in {"same", "diff"}, o \in B}
+           d \in B, a \in B, r \in B, p \in {"same", "diff", "none"}, o \in B}
   \cup {[SDef EXCEPT !.sk = "att", !.sdoc = d, !.sann = a] : d \in B, a \in B}
   \cup {[SDef EXCEPT !.sk = k] : k \in {"al", "ovo"}}
 RIsDef(r) == r = [RDef EXCEPT !.rk = r.rk]
@@ -101,27 +104,27 @@ Interacts(rk, sk) ==
   \/ rk \in {"fun", "al_fun"} /\ sk \in {"fun", "ovo"}
   \/ rk \in {"att", "al_att"} /\ sk = "att"
   \/ rk \in {"cls", "al_cls"} /\ sk = "cls"
-Mk(r, s) == [rk |-> r.rk, rdoc |-> r.rdoc, rann |-> r.rann, rov |-> r.rov, irk |-> r.irk, ibare |-> r.ibare,
+Mk(r, s) == [rk |-> r.rk, rdoc |-> r.rdoc, rann |-> r.rann, rpar |-> r.rpar, rov |-> r.rov, irk |-> r.irk, ibare |-> r.ibare,
              sk |-> s.sk, sdoc |-> s.sdoc, sann |-> s.sann, sret |-> s.sret, spar |-> s.spar, sov |-> s.sov, isk |-> s.isk]
 \* canonical cells: bits that cannot matter are pinned to their defaults
 Canon(r, s) ==
   /\ (r.ibare => r.irk \in {"fun", "att", "cls"})
   /\ (~Interacts(r.rk, s.sk) => RIsDef(r) /\ SIsDef(s))
 FullCells == {Mk(rs[1], rs[2]) : rs \in {x \in RSide \X SSide : Canon(x[1], x[2])}}
-KindCells == {c \in FullCells : /\ c.rdoc /\ c.rann /\ ~c.rov /\ ~c.ibare
+KindCells == {c \in FullCells : /\ c.rdoc /\ c.rann /\ c.rpar = "two" /\ ~c.rov /\ ~c.ibare
                                 /\ c.sdoc /\ c.sann /\ c.sret /\ c.spar = "same" /\ ~c.sov}
 AbsCell == Mk(RDef, SDef)
 
 \* ---- the two trees of a case (what the visitor builds from the rendered files) ----------------
 RInnerU(c) ==      \* runtime a.u / b.u
   LET bare == c.ibare IN
-  CASE c.irk = "fun" -> Fn(Tag(~bare, "R"), Tag(~bare, "R"), Tag(~bare, "R"), <<>>, FALSE)
+  CASE c.irk = "fun" -> Fn(Tag(~bare, "R"), Tag(~bare, "R"), Tag(~bare, "R"), <<>>, "pq")
     [] c.irk = "att" -> At(Tag(~bare, "R"), Tag(~bare, "R"))
     [] c.irk = "cls" -> [Blank EXCEPT !.k = "class", !.doc = Tag(~bare, "R")]
     [] c.irk = "al_ext" -> Al("nowhere.zz")
     [] OTHER -> Blank
 SInnerU(c) ==
-  CASE c.isk = "fun" -> Fn("S", "S", "S", <<>>, FALSE)
+  CASE c.isk = "fun" -> Fn("S", "S", "S", <<>>, "pq")
     [] c.isk = "att" -> At("S", "S")
     [] c.isk = "cls" -> [Blank EXCEPT !.k = "class", !.doc = "S"]
     [] c.isk = "al" -> Al("elsewhere.yy")
@@ -133,7 +136,7 @@ RObj(c, n) ==
   LET id == <<"R", n, "">> IN
   CASE c.rk = "cls" -> [Blank EXCEPT !.k = "class", !.doc = Tag(c.rdoc, "R"),
                           !.mem = ClassMem(id, c.irk # "abs"), !.ord = ClassOrd(c.irk # "abs")]
-    [] c.rk = "fun" -> Fn(Tag(c.rdoc, "R"), Tag(c.rann, "R"), Tag(c.rann, "R"), IF c.rov THEN QV ELSE <<>>, FALSE)
+    [] c.rk = "fun" -> Fn(Tag(c.rdoc, "R"), Tag(c.rann, "R"), Tag(c.rann, "R"), IF c.rov THEN QV ELSE <<>>, IF c.rpar = "two" THEN "pq" ELSE "none")
     [] c.rk = "att" -> At(Tag(c.rdoc, "R"), Tag(c.rann, "R"))
     [] c.rk = "al_ext" -> Al("nowhere.zz")
     [] c.rk = "al_fun" -> Al(FnPath[n])
@@ -146,7 +149,8 @@ SObj(c, n) ==
   CASE c.sk = "cls" -> [Blank EXCEPT !.k = "class", !.doc = Tag(c.sdoc, "S"),
                           !.mem = ClassMem(id, hasU), !.ord = ClassOrd(hasU),
                           !.ovd = IF c.isk = "ovo" THEN [NoOvd EXCEPT !["u"] = OV] ELSE NoOvd]
-    [] c.sk = "fun" -> Fn(Tag(c.sdoc, "S"), Tag(c.sann, "S"), Tag(c.sret, "S"), IF c.sov THEN OV ELSE <<>>, c.spar = "diff")
+    [] c.sk = "fun" -> Fn(Tag(c.sdoc, "S"), Tag(c.sann, "S"), Tag(c.sret, "S"), IF c.sov THEN OV ELSE <<>>,
+                         CASE c.spar = "same" -> "pq" [] c.spar = "diff" -> "pr" [] OTHER -> "none")
     [] c.sk = "att" -> At(Tag(c.sdoc, "S"), Tag(c.sann, "S"))
     [] c.sk = "al" -> Al("elsewhere.yy")
     [] OTHER -> Blank                                  \* abs, ovo
@@ -160,8 +164,8 @@ ModObj(tree, has, doc, ovd) ==
      !.ord = (IF has[1] THEN <<"a">> ELSE <<>>) \o (IF has[2] THEN <<"b">> ELSE <<>>)]
 
 TObj(id) ==
-  CASE id[3] # "" -> Fn("T", "T", "T", <<>>, FALSE)
-    [] id[2] \in {"fn_a", "fn_b"} -> Fn("T", "T", "T", <<>>, FALSE)
+  CASE id[3] # "" -> Fn("T", "T", "T", <<>>, "pq")
+    [] id[2] \in {"fn_a", "fn_b"} -> Fn("T", "T", "T", <<>>, "pq")
     [] id[2] \in {"at_a", "at_b"} -> At("T", "T")
     [] OTHER -> [Blank EXCEPT !.k = "class", !.doc = "T", !.mem = ClassMem(id, TRUE), !.ord = <<"u", "v">>]
 
@@ -177,8 +181,8 @@ InitHeap(ca, cb, md) ==
        [] id[1] = "S" /\ id[3] = "" -> SObj(c, id[2])
        [] id[1] = "R" /\ id[3] = "u" -> IF c.rk = "cls" THEN (IF c.irk = "al_fun" THEN Al(FnPath[id[2]]) ELSE RInnerU(c)) ELSE Blank
        [] id[1] = "S" /\ id[3] = "u" -> IF c.sk = "cls" THEN SInnerU(c) ELSE Blank
-       [] id[1] = "R" -> IF c.rk = "cls" THEN Fn("R", "R", "R", <<>>, FALSE) ELSE Blank   \* v
-       [] OTHER -> IF c.sk = "cls" THEN Fn("S", "S", "S", <<>>, FALSE) ELSE Blank]          \* v
+       [] id[1] = "R" -> IF c.rk = "cls" THEN Fn("R", "R", "R", <<>>, "pq") ELSE Blank   \* v
+       [] OTHER -> IF c.sk = "cls" THEN Fn("S", "S", "S", <<>>, "pq") ELSE Blank]          \* v
 
 \* ---- the runs ----------------------------------------------------------------------------------
 Places == <<"sub", "top", "init", "spkg", "ssub">>
@@ -368,13 +372,15 @@ MemItem ==
          isal == IF om = Nil THEN FALSE ELSE heap[om].k = "alias"
          unres == isal /\ heap[om].tgt = "nil"
          ok == IF isal THEN Resolvable(heap[om].tp) ELSE TRUE
-         tested == om # Nil /\ heap[sm].k # "alias"       \* `obj_member.kind is not stub_member.kind` is evaluated
+         \* `if obj_member.is_alias and not obj_member.resolved: continue` comes first (fix d01b2c6): the kind test
+         \* `obj_member.kind is not stub_member.kind` is only evaluated on objects and on already resolved aliases
+         tested == om # Nil /\ heap[sm].k # "alias" /\ ~unres
          e == IF isal /\ ok THEN TgtId[heap[om].tp] ELSE om IN
      /\ derefs' = IF tested /\ unres THEN derefs \cup {[alias |-> n, site |-> "kind", ok |-> ok]} ELSE derefs
      /\ IF om = Nil                      \* stub-only: stub_member.runtime = False; obj.set_member(name, stub_member)
           THEN /\ heap' = [heap EXCEPT ![sm].rt = FALSE, ![o].mem[n] = sm, ![o].ord = Append(@, n)]
                /\ ag' = Rest
-        ELSE IF ~tested \/ ~ok            \* imported stub object: continue / Alias.kind = ALIAS: mismatch
+        ELSE IF ~tested \/ ~ok            \* imported stub object / unresolved runtime alias: continue
           THEN heap' = heap /\ ag' = Rest
         ELSE LET h1 == IF unres THEN [heap EXCEPT ![om].tgt = heap[om].tp] ELSE heap IN
              /\ heap' = h1
@@ -423,10 +429,9 @@ Next == \/ LoadFirst \/ LoadSecond \/ CatchSet \/ MergeTop \/ CatchTop \/ Catch 
 \* classes of cells on which the unchanged code is known to break a clause (documented, kept out of
 \* the clean domain): see findings.d/C19.json
 CellTags(c) ==
-  LET both == c.rk = "cls" /\ c.sk = "cls"
-      live == {"cls", "fun", "att", "ovo"} IN
-  (IF (c.rk \in {"al_fun", "al_cls", "al_att"} /\ c.sk \in live) \/ (both /\ c.irk = "al_fun" /\ c.isk \in live)
-     THEN {"alias"} ELSE {})
+  LET both == c.rk = "cls" /\ c.sk = "cls" IN
+  (IF (c.rk \in {"al_fun", "al_cls", "al_att"} /\ c.sk = "ovo") \/ (both /\ c.irk = "al_fun" /\ c.isk = "ovo")
+     THEN {"alias"} ELSE {})        \* only Alias.overloads (OvlItem) still dereferences
   \cup (IF (c.rk = "al_ext" /\ c.sk = "ovo") \/ (both /\ c.irk = "al_ext" /\ c.isk = "ovo") THEN {"raise"} ELSE {})
   \cup (IF c.rk = "fun" /\ c.sk = "fun" /\ c.sov THEN {"sov"} ELSE {})
   \cup (IF (c.sk = "ovo" /\ c.rk \in {"cls", "att"}) \/ (both /\ c.isk = "ovo" /\ c.irk \in {"cls", "att"})
@@ -441,11 +446,15 @@ CtxCells == {c \in KindCells :
    \/ c.rk = "al_ext" /\ c.sk = "ovo"
    \/ c.rk = "abs" /\ c.sk = "cls" /\ c.isk = "fun"
    \/ c.rk = "cls" /\ c.sk = "cls" /\ c.irk = "fun" /\ c.isk = "fun"
+   \/ c.rk = "fun" /\ c.sk = "ovo"
    \/ c.rk = "al_fun" /\ c.sk = "fun"}
-Ctx3 == {c \in CtxCells : c.rk \in {"fun", "al_ext"} \/ (c.rk = "abs" /\ c.sk = "cls")}
+Ctx4 == {c \in CtxCells : c.rk \in {"fun", "al_ext"} \/ (c.rk = "abs" /\ c.sk = "cls")}
+TopKinds == {c \in KindCells : c.irk = "abs" /\ c.isk = "abs"}
+\* the two names of a scope are declared a then b: every (cell, context) pair is taken in BOTH orders
+BothOrders(X, Y) == (cellA \in X /\ cellB \in Y) \/ (cellA \in Y /\ cellB \in X)
 FunFun == CHOOSE c \in KindCells : c.rk = "fun" /\ c.sk = "fun"
 \* quick tier: the four groups of presence bits are varied one group at a time
-Groups(c) == (IF ~c.rdoc \/ ~c.sdoc THEN 1 ELSE 0) + (IF ~c.rann \/ ~c.sann \/ ~c.sret \/ c.spar = "diff" THEN 1 ELSE 0)
+Groups(c) == (IF ~c.rdoc \/ ~c.sdoc THEN 1 ELSE 0) + (IF ~c.rann \/ ~c.sann \/ ~c.sret \/ c.spar # "same" \/ c.rpar # "two" THEN 1 ELSE 0)
              + (IF c.rov \/ c.sov THEN 1 ELSE 0) + (IF c.irk # "abs" \/ c.isk # "abs" \/ c.ibare THEN 1 ELSE 0)
 QuickCells == {c \in FullCells : Groups(c) <= 1}
 
@@ -454,12 +463,14 @@ Init ==
        [] Dom = "defects" -> /\ cellA \in {CHOOSE c \in FullCells : CellTags(c) = {t} /\ c.rk # "cls" :
                                                t \in {"alias", "raise", "sov", "ovomis", "ovoself"}}
                              /\ cellB = AbsCell /\ mdoc = "both"
-       [] Dom = "pair"   -> cellA \in KindCells /\ cellB \in CtxCells /\ mdoc = "both"
+       [] Dom = "pair"   -> BothOrders(KindCells, CtxCells) /\ mdoc = "both"
        [] Dom = "mdoc"   -> cellA = FunFun /\ cellB \in {AbsCell, FunFun} /\ mdoc \in {"both", "rt", "st", "none"}
        [] Dom = "quick"  -> \/ cellA \in QuickCells /\ cellB = AbsCell /\ mdoc = "both"
-                            \/ cellA \in KindCells /\ cellB \in Ctx3 /\ mdoc = "both"
+                            \/ BothOrders(TopKinds, Ctx4) /\ mdoc = "both"
+                            \/ cellA \in KindCells \ TopKinds /\ cellB \in Ctx4 /\ mdoc = "both"
                             \/ cellA = FunFun /\ cellB = AbsCell /\ mdoc \in {"rt", "st", "none"}
-       [] Dom = "wide"   -> cellA \in FullCells /\ cellB \in CtxCells /\ mdoc \in {"both", "none"}
+       [] Dom = "wide"   -> \/ BothOrders(FullCells, CtxCells) /\ mdoc = "both"
+                            \/ cellA = FunFun /\ cellB \in CtxCells /\ mdoc \in {"rt", "st", "none"}
        [] OTHER          -> cellA \in KindCells /\ cellB \in KindCells /\ mdoc = "both"    \* "kinds"
   /\ (Only # "" => Only \in Tags)
   /\ preR = TreeOf(InitHeap(cellA, cellB, mdoc), ModR)
